@@ -541,6 +541,12 @@ pub struct ByteCompiler<'ctx> {
     /// Avoids repeated `GetName` environment lookups for immutable bindings.
     const_binding_cache: FxHashMap<BindingLocator, u32>,
 
+    /// Unique id of the scope of the `switch` statement whose clauses are being compiled.
+    ///
+    /// A `const` declared directly in a clause can be skipped by jumping to a later clause, so
+    /// reads after it must keep their runtime TDZ check instead of using the register cache.
+    pub(crate) switch_scope_without_const_cache: Option<u32>,
+
     jump_info: Vec<JumpControlInfo>,
 
     /// Used to handle exception throws that escape the async function types.
@@ -668,6 +674,7 @@ impl<'ctx> ByteCompiler<'ctx> {
             names_map: FxHashMap::default(),
             bindings_map: FxHashMap::default(),
             const_binding_cache: FxHashMap::default(),
+            switch_scope_without_const_cache: None,
             jump_info: Vec::new(),
             async_handler: None,
             json_parse,
@@ -2282,8 +2289,12 @@ impl<'ctx> ByteCompiler<'ctx> {
                                 let cache_reg = self.register_allocator.alloc_persistent();
                                 self.bytecode
                                     .emit_move(cache_reg.variable(), value.variable());
-                                self.const_binding_cache
-                                    .insert(binding.locator(), cache_reg.index());
+                                if self.switch_scope_without_const_cache
+                                    != Some(self.lexical_scope.unique_id())
+                                {
+                                    self.const_binding_cache
+                                        .insert(binding.locator(), cache_reg.index());
+                                }
                                 #[cfg(boa_verif)]
                                 if crate::verif::const_cache_off() {
                                     self.const_binding_cache.remove(&binding.locator());
